@@ -38,3 +38,12 @@ def run(scratch, which, prop, variant="plain", timeout=3000):
         viol.append(w)
     cov["counters"]["suite:pytest_exit"] = r.returncode
     return cov, viol, inc
+
+
+def native_for(which, prop):
+    """Plan.native callable: thorough tier only"""
+    def _own_suite(tier, seed, scratch):
+        if tier != "thorough":
+            return None, None, None
+        return run(scratch, which, prop)
+    return _own_suite
